@@ -4,15 +4,19 @@
 (* integer grid with type and a property) driven through operations that   *)
 (* belong to different properties -- replication (C04), point defects      *)
 (* (C15), rigid translation + wrapping (C05), file and data-model round    *)
-(* trips (C08, C10) -- with observations of periodic distances (C02) and   *)
-(* neighbour lists (C03) in between.  Histories cross module boundaries:   *)
-(* supersize -> vacancy -> translate+wrap -> dump/load -> neighbour list.  *)
+(* trips (C08, C10), re-expression along integer lattice vectors (C04),    *)
+(* extraction of a sub-system (C06) -- with observations of periodic       *)
+(* distances and displacements (C02) and neighbour lists (C03, also        *)
+(* through a file) in between.  Histories cross module boundaries:         *)
+(* supersize -> rotate -> vacancy -> translate+wrap -> dump/load -> list.  *)
+(* The abstract frame never rotates: the implementation's rotations are    *)
+(* accumulated by the replay harness and undone before comparing.          *)
 (* The state is a SET of atoms (order is modelled in PointDefect/AtomsStore*)
 (* where it matters).                                                      *)
 (***************************************************************************)
 EXTENDS Lattice, Json
 
-CONSTANTS UDepthMax, UCells, UShifts, UInter, UCuts
+CONSTANTS UDepthMax, UCells, UShifts, UInter, UCuts, UUvws
 VARIABLES usys, ulog, ucount
 umvars == <<usys, ulog, ucount>>
 
@@ -39,24 +43,56 @@ Interstitial == \E s \in UInter : LET x == Add(usys.o, s) IN At(usys, x) = {} /\
 Substitutional == \E a \in usys.atoms : a.t # 2 /\
     /\ usys' = [usys EXCEPT !.atoms = (usys.atoms \ {a}) \cup {A(a.p, 2, a.q)}]
     /\ UNCHANGED ucount /\ Log("substitutional", [p |-> a.p, t |-> 2], [n |-> Cardinality(usys.atoms)])
+\* re-expression along integer lattice vectors U (rows, in cell coordinates): the new cell U.v sits at the ABSOLUTE origin and holds
+\* every lattice image of every atom that falls inside it (half-open)
+RotateWith(Inside(_, _)) == \E U \in UUvws : Cardinality(usys.atoms) * Abs(Det3(U)) <= 8 /\
+    LET nv == MatMul(U, usys.v)
+        nc == [v |-> nv, o |-> Zero3]
+        imgs == { A(Add(a.p, VecMat(n, usys.v)), a.t, a.q) : a \in usys.atoms, n \in Shifts(PBC, 3) } IN
+    /\ usys' = [v |-> nv, o |-> Zero3, atoms |-> {x \in imgs : Inside(nc, x.p)}]
+    /\ ucount' = Abs(Det3(U)) * ucount /\ Log("rotate", [uvw |-> U], [n |-> Abs(Det3(U)) * Cardinality(usys.atoms)])
+Rotate == RotateWith(InsideHalfOpen)
+\* a deliberately wrong variant (both faces included) for the negative configuration: KeepsCrystal and NoCoincidence must reject it
+RotateBothFaces == RotateWith(InsideIncl)
+\* sub-system extraction: the atoms of one type, as a new system in the same cell
+Extract == \E t \in {a.t : a \in usys.atoms} : {a \in usys.atoms : a.t # t} # {} /\
+    /\ usys' = [usys EXCEPT !.atoms = {a \in usys.atoms : a.t = t}]
+    /\ ucount' = 0 /\ Log("extract", [t |-> t], [n |-> Cardinality({a \in usys.atoms : a.t = t})])
 \* rigid translation followed by wrap: every atom returns into the cell by whole cell vectors
 Wrapped(c, p) == Sub(p, VecMat(<<WrapFlag(c, p, 1), WrapFlag(c, p, 2), WrapFlag(c, p, 3)>>, c.v))
 TranslateWrap == \E d \in UShifts :
     /\ usys' = [usys EXCEPT !.atoms = {A(Wrapped(CellOf(usys), Add(a.p, d)), a.t, a.q) : a \in usys.atoms}]
-    /\ UNCHANGED ucount /\ Log("translate_wrap", [d |-> d], [n |-> Cardinality(usys.atoms)])
+    /\ UNCHANGED ucount /\ Log("translate_wrap", [d |-> d], [n |-> Cardinality(usys.atoms), disp2 |-> Min27(CellOf(usys), PBC, d)])
 \* round trips leave the system as it is
-RoundTrip == \E fmt \in {"atom_data", "atom_dump", "system_model_json", "system_model_xml", "poscar"} :
+RoundTrip == \E fmt \in {"atom_data", "atom_dump", "system_model_json", "system_model_xml", "poscar", "table"} :
     /\ (fmt = "poscar" => usys.o = Zero3) /\ UNCHANGED <<usys, ucount>> /\ Log("roundtrip", [fmt |-> fmt], [n |-> Cardinality(usys.atoms)])
 \* observations: neighbour sets by position, and the periodic squared distance of the two lexicographically extreme atoms
 NeighSets(s, cut2) == { [p |-> a.p, nb |-> {b.p : b \in {c \in s.atoms : c # a /\ Min27(CellOf(s), PBC, Sub(c.p, a.p)) < cut2}}] : a \in s.atoms }
 Observe == \E cut2 \in UCuts :
     /\ UNCHANGED <<usys, ucount>> /\ Log("neighbors", [cut2 |-> cut2], [nl |-> NeighSets(usys, cut2)])
-UmNext == Len(ulog) < UDepthMax /\ (Supersize \/ Vacancy \/ Interstitial \/ Substitutional \/ TranslateWrap \/ RoundTrip \/ Observe)
+\* periodic squared distance of every pair
+Distances == /\ Cardinality(usys.atoms) > 1 /\ UNCHANGED <<usys, ucount>>
+             /\ Log("distances", [k |-> 0], [d |-> { [p |-> a.p, q |-> b.p, d2 |-> Min27(CellOf(usys), PBC, Sub(b.p, a.p))] : a \in usys.atoms, b \in usys.atoms }])
+UmNext == Len(ulog) < UDepthMax /\ (Supersize \/ Rotate \/ Extract \/ Vacancy \/ Interstitial \/ Substitutional \/ TranslateWrap \/ RoundTrip \/ Observe \/ Distances)
+
+UmNextBad == Len(ulog) < UDepthMax /\ (Supersize \/ RotateBothFaces)
 
 \* ---- invariants across modules ---------------------------------------------------------------------------------------------
 AllInside == \A a \in usys.atoms : InsideHalfOpen(CellOf(usys), a.p) \/ Len(ulog) = 0 \/ TRUE
 NoCoincidence == \A a \in usys.atoms : \A b \in usys.atoms : a # b => Min27(CellOf(usys), PBC, Sub(a.p, b.p)) > 0
 NeighboursSymmetric == \A k \in 1..Len(ulog) : ulog[k].act = "neighbors" =>
     \A e \in ulog[k].obs.nl : \A q \in e.nb : \E f \in ulog[k].obs.nl : f.p = q /\ e.p \in f.nb
+\* the declarative meaning of "the same infinite crystal" checked on the abstract Rotate and Supersize themselves
+Last == ulog'[Len(ulog')]
+Represented(old, new, k) == \A a \in old.atoms : Cardinality({b \in new.atoms : b.t = a.t /\ b.q = a.q /\ IsLatticeShift(CellOf(old), PBC, Sub(b.p, a.p))}) = k
+KeepsCrystal == [][ Len(ulog') > Len(ulog) =>
+      /\ Last.act = "rotate" => LET k == Abs(Det3(Last.args.uvw)) IN Cardinality(usys'.atoms) = k * Cardinality(usys.atoms) /\ Represented(usys, usys', k)
+                                   /\ Abs(Det3(usys'.v)) = k * Abs(Det3(usys.v))
+      /\ Last.act = "supersize" => Cardinality(usys'.atoms) = 2 * Cardinality(usys.atoms) /\ Represented(usys, usys', 2) /\ Det3(usys'.v) = 2 * Det3(usys.v)
+      /\ Last.act = "translate_wrap" => \A a \in usys.atoms : \E b \in usys'.atoms : b.t = a.t /\ b.q = a.q
+                                            /\ IsLatticeShift(CellOf(usys), PBC, Sub(b.p, Add(a.p, Last.args.d))) /\ InsideHalfOpen(CellOf(usys'), b.p)
+      /\ Last.act \in {"roundtrip", "neighbors", "distances"} => usys' = usys ]_umvars
+DistancesSymmetric == \A k \in 1..Len(ulog) : ulog[k].act = "distances" =>
+    \A e \in ulog[k].obs.d : (e.p = e.q <=> e.d2 = 0) /\ \E f \in ulog[k].obs.d : f.p = e.q /\ f.q = e.p /\ f.d2 = e.d2
 UmEmit == Len(ulog) = UDepthMax => PrintT("@@CASE " \o ToJson(ulog))
 ====
